@@ -395,6 +395,12 @@ class FnCompiler:
             if a.ty == "V" and d == "np.abs":
                 return Val("(vabs o %s)" % a.coq, "V")
             self.fail(e, "abs of %r" % (a.ty,))
+        if d in ("max", "min"):
+            need(2)
+            a, b = A(0), A(1)
+            if a.ty == "S" and b.ty == "S":
+                return Val("(%s o %s %s)" % ("omax" if d == "max" else "omin", a.coq, b.coq), "S")
+            self.fail(e, "%s of %r, %r" % (d, a.ty, b.ty))
         if d == "np.sum":
             need(1)
             a = A(0)
